@@ -259,14 +259,14 @@ def fake_aio_channel(handler):
         def unary_unary(self, path, request_serializer=None, response_deserializer=None, *a, **kw):
             return AMulti("unary_unary", path, request_serializer, response_deserializer)
 
-        def unary_stream(self, *a, **k):
-            raise NotImplementedError
+        def unary_stream(self, path, request_serializer=None, response_deserializer=None, *a, **kw):
+            return AMulti("unary_stream", path, request_serializer, response_deserializer)
 
-        def stream_unary(self, *a, **k):
-            raise NotImplementedError
+        def stream_unary(self, path, request_serializer=None, response_deserializer=None, *a, **kw):
+            return AMulti("stream_unary", path, request_serializer, response_deserializer)
 
-        def stream_stream(self, *a, **k):
-            raise NotImplementedError
+        def stream_stream(self, path, request_serializer=None, response_deserializer=None, *a, **kw):
+            return AMulti("stream_stream", path, request_serializer, response_deserializer)
 
         async def close(self, grace=None):
             pass
